@@ -29,7 +29,7 @@ RULE = ("cases: (rows, V placement, family, scaling); executions: units x units 
 ASSUMPTIONS = ["tables are increasing in wavelength and cover 0.55 micron (the property's precondition)",
                "opacities from finite families (constant, power law, non-monotonic, seed-derived positive)"]
 OPS = ['scale-chi', 'chi-unit', 'wav-unit', 'new-chi', 'pickle', 'new-table', 'table-roundtrip-discarded', 'new-wav']
-REQUIRED_CLASSES = ['columns-counted-from-the-end', 'two-laws-on-the-same-arrays', 'table-through-a-fits-file', 'queries-not-bracketing-V', 'law-file-replaced-and-read-again', 'query-unsorted-and-2d', 'table-native-in-other-unit', 'history-depth-3', 'history-new-chi-after-query', 'V-between', 'V-on-node', 'V-first', 'V-last', 'outside-zero', 'exact-at-V', 'pickle', 'table', 'file',
+REQUIRED_CLASSES = ['law-file-with-three-digit-exponents', 'columns-counted-from-the-end', 'two-laws-on-the-same-arrays', 'table-through-a-fits-file', 'queries-not-bracketing-V', 'law-file-replaced-and-read-again', 'query-unsorted-and-2d', 'table-native-in-other-unit', 'history-depth-3', 'history-new-chi-after-query', 'V-between', 'V-on-node', 'V-first', 'V-last', 'outside-zero', 'exact-at-V', 'pickle', 'table', 'file',
                     'unit-change', 'scaled', 'non-monotonic']
 
 
@@ -187,8 +187,10 @@ def run_case(ctx, case, rec, d):
     qunits = [u.micron, u.nm, u.m] + ([u.AA] if tier == 'thorough' else [])
     first = True
     import decimal
-    FACT = {u.micron: '1', u.nm: '1e3', u.cm: '1e-4', u.AA: '1e4'}
-    for wu, cu, qu in itertools.product([u.micron, u.nm, u.cm, u.AA], [u.cm ** 2 / u.g, u.m ** 2 / u.kg], qunits):
+    FACT = {u.micron: '1', u.nm: '1e3', u.cm: '1e-4', u.AA: '1e4', u.m: '1e-6'}
+    for wu, cu, qu in itertools.product([u.micron, u.nm, u.cm, u.AA, u.m], [u.cm ** 2 / u.g, u.m ** 2 / u.kg], qunits):
+        if wu == u.m and qu != u.micron:
+            continue          # tables in metres (node spacings of 1e-9 .. 1e-5 as bare numbers): queried in micron only
         e = Extinction()
         e.wav = (wt * u.micron).to(wu)
         if case['vpos'] != 'between' and wu != u.micron and case['fam'] % 2 == 1:
@@ -326,6 +328,21 @@ def run_case(ctx, case, rec, d):
         if not ok_:
             rec.violation('from_file|columns', {'same_path_read': rep_ + 1}, {'wav_read': e_.wav.value[:4], 'wav_in_file': w_[:4], 'chi_read': e_.chi.value[:4], 'chi_in_file': c_[:4]})
             break
+    # the text-file reader on opacities multiplied by a huge and by a tiny constant, so that SOME rows need three-digit exponents
+    for big_sc in (3e98, 2e-96):
+        pth2 = os.path.join(d, 'law_scaled.txt')
+        np.savetxt(pth2, np.column_stack([wt, ct * big_sc]))
+        try:
+            e_ = Extinction.from_file(pth2)
+            r_ = np.asarray(e_.get_av(q * u.micron), float)
+        except Exception as ex:
+            rec.violation('from_file|exception', {'scaled_by': big_sc}, {'type': type(ex).__name__, 'msg': str(ex)[:200]})
+            continue
+        rec.ev()
+        rec.trans()
+        rec.cls('law-file-with-three-digit-exponents')
+        if len(e_.wav) != len(wt) or not np.allclose(r_, exp, rtol=1e-9, atol=1e-12):
+            rec.violation('from_file|columns', {'scaled_by': big_sc}, {'rows_read': len(e_.wav), 'rows_in_file': len(wt), 'got': r_[:5], 'expected': exp[:5]})
     # the text-file reader: every ordered column pair of a 2..4 column file, both unit arguments
     for ncol in (2, 3, 4):
         cols = [wt, ct * case['sc'], ct * 2 * case['sc'], wt * 3][:ncol]
